@@ -150,11 +150,11 @@ Section Logic.
        (forall w, mode = Some w -> apply_vws K v dvW = p_dv K inp mode)) /\
     (forall m w, s_cmd p = Some m -> mode = Some w -> apply_mws K m (cmdW w) = p_pre K inp w).
 
-  (* how the Preloads object may change: only the two arrays completed in place, and only towards completion *)
+  (* how the Preloads object may change: only data_vector_mapper, and only towards completion *)
   Definition evolves (p p' : pstore T) : Prop :=
     s_use_wt p' = s_use_wt p /\ s_wt p' = s_wt p /\ s_omm p' = s_omm p /\ s_curv p' = s_curv p /\
     s_reg p' = s_reg p /\ s_lf p' = s_lf p /\ s_dlf p' = s_dlf p /\ s_momm p' = s_momm p /\ s_ldr p' = s_ldr p /\
-    is_some (s_dvm p') = is_some (s_dvm p) /\ is_some (s_cmd p') = is_some (s_cmd p) /\
+    is_some (s_dvm p') = is_some (s_dvm p) /\ s_cmd p' = s_cmd p /\
     (s_dvm p = Some (p_dv K inp mode) -> s_dvm p' = Some (p_dv K inp mode)).
   Lemma evolves_refl p : evolves p p.
   Proof. unfold evolves. tauto. Qed.
@@ -432,22 +432,8 @@ Section Logic.
     unfold p_pre, cmdW. destruct (has_func inp); [now rewrite apply_mws_app|].
     destruct (Nat.eqb (length (mappers inp)) 1); reflexivity.
   Qed.
-  Lemma Inv_cmd_set st m' :
-    Inv st -> is_some (s_cmd (store st)) = true ->
-    (forall w, mode = Some w -> apply_mws K m' (cmdW w) = p_pre K inp w) ->
-    Inv {| cache := cache st; store := mslot_set SCmd m' (store st) |} /\ evolves (store st) (mslot_set SCmd m' (store st)).
-  Proof.
-    intros [Hc Hs] Hp Hw.
-    assert (Hev : evolves (store st) (mslot_set SCmd m' (store st))).
-    { unfold evolves. simpl. repeat split; auto. }
-    split; [|assumption]. split.
-    - destruct Hc as (c1&c2&c3&c4&c5&c6&c7&c8&c9).
-      refine (conj c1 (conj c2 (conj c3 (conj c4 (conj c5 (conj c6 (conj c7 (conj c8 _)))))))).
-      simpl. intros m w Hm Hmode. injection Hm as <-. now apply Hw.
-    - intros q c Hq. simpl in *. eapply sound_mono; [apply Hev | apply Hs, Hq].
-  Qed.
-  Definition ref_ok (r : mref T) (p : pstore T) : Prop :=
-    (exists m, r = MOwn m) \/ (r = MAlias SCmd /\ is_some (s_cmd p) = true).
+  (* every reference the w-tilde curvature code writes through is an array the inversion owns *)
+  Definition ref_ok (r : mref T) (p : pstore T) : Prop := exists m, r = MOwn m.
   Lemma write_m_ok w r ws X :
     mode = Some w ->
     apply_mws K (apply_mws K X ws) (cmdW w) = p_pre K inp w ->
@@ -455,20 +441,16 @@ Section Logic.
            (fun r' p => ref_ok r' p /\ rdm r' p = apply_mws K X ws).
   Proof.
     intros Em Hfix st HI [Hr HX]. destruct r as [m|s].
-    - simpl in *. subst X. split; [assumption|]. split; [apply evolves_refl|]. split; [left; eauto | reflexivity].
-    - destruct Hr as [[m Hm]|[Hs Hp]]; [discriminate|]. injection Hs as ->.
-      unfold write_m, bind, modify, ret. simpl in *. rewrite HX.
-      destruct (Inv_cmd_set st (apply_mws K X ws) HI Hp) as [HI' Hev].
-      { intros w' Em'. rewrite Em in Em'. injection Em' as <-. assumption. }
-      split; [exact HI'|]. split; [exact Hev|]. split; [right; split; reflexivity | reflexivity].
+    - simpl in *. subst X. split; [assumption|]. split; [apply evolves_refl|]. split; [eexists; reflexivity | reflexivity].
+    - destruct Hr as [m Hm]. discriminate.
   Qed.
   Lemma cmd_ref_ok w : mode = Some w ->
     triple TT (cmd_ref K inp w) (fun r p => ref_ok r p /\ apply_mws K (rdm r p) (cmdW w) = p_pre K inp w).
   Proof.
     intro Em. apply triple_gets_case. intros [m|] st HI E; simpl.
-    - split; [assumption|]. split; [apply evolves_refl|]. split; [right; split; [reflexivity|now rewrite E]|].
-      rewrite E. pose proof (proj1 HI) as (_&_&_&_&_&_&_&_&Hc). now apply Hc.
-    - split; [assumption|]. split; [apply evolves_refl|]. split; [left; eauto|]. symmetry. apply p_pre_eq.
+    - split; [assumption|]. split; [apply evolves_refl|]. split; [eexists; reflexivity|].
+      pose proof (proj1 HI) as (_&_&_&_&_&_&_&_&Hc). now apply Hc.
+    - split; [assumption|]. split; [apply evolves_refl|]. split; [eexists; reflexivity|]. symmetry. apply p_pre_eq.
   Qed.
 
   Lemma lf_pres : store_pres (val (get_lf K inp)).
@@ -868,7 +850,8 @@ Section Top.
 
   Definition frozen_eq (p p' : pstore T) : Prop :=
     s_use_wt p' = s_use_wt p /\ s_wt p' = s_wt p /\ s_omm p' = s_omm p /\ s_curv p' = s_curv p /\
-    s_reg p' = s_reg p /\ s_lf p' = s_lf p /\ s_dlf p' = s_dlf p /\ s_momm p' = s_momm p /\ s_ldr p' = s_ldr p.
+    s_reg p' = s_reg p /\ s_lf p' = s_lf p /\ s_dlf p' = s_dlf p /\ s_momm p' = s_momm p /\ s_ldr p' = s_ldr p /\
+    s_cmd p' = s_cmd p.
   Lemma evolves_frozen mode p p' : evolves K inp mode p p' -> frozen_eq p p'.
   Proof. unfold evolves, frozen_eq. tauto. Qed.
 
@@ -894,8 +877,8 @@ Section Top.
     s_curv (snd (run_history K inp code p h)) = s_curv p.
   Proof. intros Hn Hf. destruct (reuse_any_history p h Hn Hf) as [_ (_&_&_&H&_)]. exact H. Qed.
 
-  (* the data_vector_mapper / curvature_matrix_mapper_diag cells may be completed in place, but only to arrays
-     that are again valid preloads: the store stays consistent for ever *)
+  (* the data_vector_mapper cell may be completed in place, but only to an array that is again a valid preload: the
+     store stays consistent for ever *)
   Theorem store_stays_consistent p h mode :
     make_inversion K inp p = Ok mode -> fresh_store mode p -> laws_for mode p ->
     consistent K inp mode (snd (run_history K inp code p h)).
